@@ -432,6 +432,9 @@ type c09item struct {
 var c09bounds = []int64{0, 1 << 30, 1 << 31, 3 << 30, 1 << 32}
 
 func c09segLen(rng *rand.Rand, big bool) int {
+	if big && rng.Intn(3) == 0 {
+		return 1200 + rng.Intn(3300)
+	}
 	switch r := rng.Intn(20); {
 	case r < 6:
 		return 1 + rng.Intn(8)
@@ -602,8 +605,12 @@ func c09case(rng *rand.Rand, big bool) Case {
 	case synMode < 16:
 		insert(1+rng.Intn(len(arr)+1), syn)
 	}
-	if synMode < 16 && rng.Intn(6) == 0 {
-		insert(rng.Intn(len(arr)+1), syn) // duplicate SYN, same payload
+	if synMode < 16 && rng.Intn(5) == 0 {
+		dup := syn // retransmitted SYN, possibly with a different amount of data
+		if rng.Intn(2) == 0 && L > 0 {
+			dup.n = rng.Intn(c09min(L, 60) + 1)
+		}
+		insert(rng.Intn(len(arr)+1), dup)
 	}
 	force := synMode >= 18
 	// flushes
@@ -703,12 +710,73 @@ func c09min(a, b int) int {
 	return b
 }
 
+// all arrival orders of a SYN and four data segments (the last with FIN) of a 12-byte stream
+func c09perms(isn int64, cuts []int, flush bool) []Case {
+	S := []byte{0x10, 0x21, 0x32, 0x43, 0x54, 0x65, 0x76, 0x87, 0x98, 0xa9, 0xba, 0xcb}
+	type sg struct {
+		off, n int
+		syn    bool
+	}
+	segs := []sg{{0, 0, true}}
+	prev := 0
+	for _, c := range append(cuts, len(S)) {
+		segs = append(segs, sg{prev, c - prev, false})
+		prev = c
+	}
+	var out []Case
+	idx := make([]int, len(segs))
+	var rec func(k int)
+	used := make([]bool, len(segs))
+	rec = func(k int) {
+		if k == len(segs) {
+			ops := []string{"s:" + hex.EncodeToString(S), fmt.Sprintf("isn:%d", isn), "cfg:0,0"}
+			for t, j := range idx {
+				g := segs[j]
+				fl, seq := 0, (isn+1+int64(g.off))%(1<<32)
+				if g.syn {
+					fl, seq = 1, isn
+				}
+				if !g.syn && g.off+g.n == len(S) {
+					fl |= 2
+				}
+				ops = append(ops, fmt.Sprintf("seg:%d,%d,%d,%s", seq, fl, 1001+t, hex.EncodeToString(S[g.off:g.off+g.n])))
+				if flush && t == 2 {
+					ops = append(ops, "fwo:1003,0")
+				}
+			}
+			ops = append(ops, "fall")
+			out = append(out, Case{Prop: "C09", Ops: ops})
+			return
+		}
+		for j := range segs {
+			if !used[j] {
+				used[j] = true
+				idx[k] = j
+				rec(k + 1)
+				used[j] = false
+			}
+		}
+	}
+	rec(0)
+	return out
+}
+
 func (c09) Gen(rng *rand.Rand, tier string) []Case {
 	n := 1500
 	if tier == "thorough" {
 		n = 20000
 	}
 	var out []Case
+	// exhaustive small scope: every arrival order, at the wrap (quick) and at every quarter boundary (thorough)
+	out = append(out, c09perms(4294967290, []int{3, 6, 9}, false)...)
+	if tier == "thorough" {
+		for _, isn := range []int64{0, 1<<30 - 5, 1<<31 - 5, 3<<30 - 5, 4294967290, 4294967295} {
+			for _, cuts := range [][]int{{3, 6, 9}, {1, 2, 11}, {5, 6, 7}} {
+				out = append(out, c09perms(isn, cuts, false)...)
+				out = append(out, c09perms(isn, cuts, true)...)
+			}
+		}
+	}
 	for i := 0; i < n; i++ {
 		out = append(out, c09case(rng, i%4 == 0))
 	}
